@@ -189,6 +189,12 @@ class Workspace(AbstractContextManager):
             return
 
         if self.geoh5.mode in ["r+", "a"]:
+            # entities detached from their parent and no longer referenced must not
+            # stay behind as unreachable nodes of the flat containers
+            collect()
+            self.remove_none_referents(self._data, "Data")
+            self.remove_none_referents(self._objects, "Objects")
+
             for entity in self.groups:
                 if isinstance(entity, Concatenator) and self.repack:
                     self.update_attribute(entity, "concatenated_attributes")
@@ -909,11 +915,20 @@ class Workspace(AbstractContextManager):
         )
         self.close()
 
+    @staticmethod
+    def _find_referent(referents: dict, uid: uuid.UUID):
+        """
+        Look up an active entity. A dead reference is left in place so that its
+        node is removed from the file by :func:`remove_none_referents`.
+        """
+        ref = referents.get(uid, None)
+        return None if ref is None else ref()
+
     def find_data(self, data_uid: uuid.UUID) -> Entity | None:
         """
         Find an existing and active Data entity.
         """
-        return weakref_utils.get_clean_ref(self._data, data_uid)
+        return self._find_referent(self._data, data_uid)
 
     def find_entity(self, entity_uid: uuid.UUID) -> Entity | PropertyGroup | None:
         """Get all active entities registered in the workspace."""
@@ -928,7 +943,7 @@ class Workspace(AbstractContextManager):
         """
         Find an existing and active Group object.
         """
-        return weakref_utils.get_clean_ref(self._groups, group_uid)
+        return self._find_referent(self._groups, group_uid)
 
     def find_property_group(
         self, property_group_uid: uuid.UUID
@@ -936,13 +951,13 @@ class Workspace(AbstractContextManager):
         """
         Find an existing and active PropertyGroup object.
         """
-        return weakref_utils.get_clean_ref(self._property_groups, property_group_uid)
+        return self._find_referent(self._property_groups, property_group_uid)
 
     def find_object(self, object_uid: uuid.UUID) -> ObjectBase | None:
         """
         Find an existing and active Object.
         """
-        return weakref_utils.get_clean_ref(self._objects, object_uid)
+        return self._find_referent(self._objects, object_uid)
 
     def find_type(
         self, type_uid: uuid.UUID, type_class: type[EntityType]
